@@ -24,8 +24,10 @@ ASSUMPTIONS = ['conditions are booleans, numbers or blank (text conditions and e
 PRIMES = [2, 3, 5, 7, 11, 13, 17, 19, 23, 29, 31, 37, 41, 43, 47, 53, 59, 61, 67, 71, 73, 79, 83, 89, 97]
 LEAF_KINDS = ['P', 'F', 'E']
 LEAF_KINDS_1 = ['P', 'F', 'E', 'A', 'I']   # depth-1 constructs also range over failures of other exception families
-CONTEXTS = ['{}', '1+{}', '{}+1', '2*{}', '-{}', '{}&"x"', '{}=3', 'SUM({},1)', 'IF({}>0,"P","N")', 'ROUND({},0)']
-CNAMES = ['bare', '1+n', 'n+1', '2*n', '-n', 'n&x', 'n=3', 'SUM(n,1)', 'IF(n>0)', 'ROUND(n,0)']
+# the last two repeat the nest inside one cell, with another registered sub-expression in between / around
+CONTEXTS = ['{0}', '1+{0}', '{0}+1', '2*{0}', '-{0}', '{0}&"x"', '{0}=3', 'SUM({0},1)', 'IF({0}>0,"P","N")', 'ROUND({0},0)',
+            '{0}&"/"&IFS(1>2,"k",TRUE,"m")&"/"&{0}', 'IF(SUM(1,2)>2,{0},0)+IFS(TRUE,0)+{0}']
+CNAMES = ['bare', '1+n', 'n+1', '2*n', '-n', 'n&x', 'n=3', 'SUM(n,1)', 'IF(n>0)', 'ROUND(n,0)', 'n&IFS&n', 'IF(SUM,n)+IFS+n']
 COND_COLS = ['C', 'D', 'E', 'F', 'G', 'H', 'I', 'J', 'K', 'L', 'M', 'N']
 TRUTHS = [True, False, 1, 0, None, -1.5]
 
